@@ -27,6 +27,7 @@
   Correspondence op: `hist` of Drv/C13.lean (harness/props/c13.py, history correspondence).
 -/
 import Ladybug.Model.Resample
+import Ladybug.Gen.ResampleSrc
 
 open Cal
 
@@ -121,17 +122,29 @@ def cullP (p : Pub) (ts : Nat) : Except OErr Obj :=
   | .error e => .error (.ofV e)
   | .ok v => mkDisc p false v.ap (v.data.map (·.2)) (v.data.map (·.1)) true
 
-/-- `convert_to_culled_timestep(ts)`: the new period and the kept pairs (nothing is checked: the
-    kept list may be empty, and a continuous collection may end up with fewer values than its
-    period has steps). -/
-def convCullP (p : Pub) (ts : Nat) : Except OErr (AP × List (Nat × Rat)) :=
+/-- The in-place cull of a continuous collection is refused: the class has its own
+    `convert_to_culled_timestep` that asserts `current timestep % ts = 0`
+    (`Gen.ResampleSrc.contCullStrict`, read off datacollection.py on every run; true with
+    fixes/C13_continuous_cull_in_place_divisor.patch) and `ts` does not divide the current timestep. -/
+def contCullRefused (strict : Bool) (p : Pub) (ts : Nat) : Bool :=
+  strict && p.cont && decide (p.ap.timestep % ts ≠ 0)
+
+/-- `convert_to_culled_timestep(ts)`: the new period and the kept pairs.  The kept list may be
+    empty.  Without the divisibility assertion of the continuous class (`strict = false`, the code
+    as it was) a continuous collection may end up with fewer values than its period has steps. -/
+def convCullWith (strict : Bool) (p : Pub) (ts : Nat) : Except OErr (AP × List (Nat × Rat)) :=
   if p.imm then .error .attr
   else if ts ∈ Gen.Ap.validTimesteps then
+    if contCullRefused strict p ts then .error .assert else
     match liftAP (AP.mk? p.ap.st_month p.ap.st_day p.ap.st_hour p.ap.end_month p.ap.end_day p.ap.end_hour
         ts p.ap.leap) with
     | .error e => .error (.ofV e)
     | .ok nap => .ok (nap, p.pairs.filter fun q => q.1 % (60 / ts) = 0)
   else .error .assert
+
+/-- The in-place cull of the code under test (strictness as read off the source). -/
+def convCullP (p : Pub) (ts : Nat) : Except OErr (AP × List (Nat × Rat)) :=
+  convCullWith Gen.ResampleSrc.contCullStrict p ts
 
 /-- `interpolate_holes()`: a continuous collection answers a copy. -/
 def holesP (p : Pub) : Except OErr Obj :=
